@@ -102,7 +102,7 @@ pub fn run_check(id: &str, tier: Tier) -> i32 {
             ctx.rule("same histories; oracle: option 51 present, 300..=86400, record duration equals it and record does not expire early; non-trivial = reply for an address the client already had a row for (lease time computed from history)");
             props_dhcp::run_hist_func(&ctx, id);
             if ctx.violations.lock().unwrap().is_empty() {
-                ctx.rule("policy-options: generated configurations (policy trees whose apply-* options include lease-time as a value or null) x parameter request lists (any codes, incl. 51) through the real loader; DISCOVER then REQUEST through handle_pkt: both replies carry option 51 within [300,86400] and the record runs exactly that long; non-trivial = an applied policy names lease-time and the client asks for it");
+                ctx.rule("policy-options: generated configurations (policy trees whose apply-* options include lease-time, renewal-time and rebind-time as a value or null) x parameter request lists (any codes, incl. 51) through the real loader; DISCOVER then REQUEST through handle_pkt: both replies carry option 51 within [300,86400] and the record runs exactly that long; non-trivial = an applied policy names lease-time, renewal-time or rebind-time and the client asks for it");
                 props_policy::run_reply_invariants(&ctx, "C10");
             }
             if wire_ok && ctx.violations.lock().unwrap().is_empty() {
@@ -119,6 +119,7 @@ pub fn run_check(id: &str, tier: Tier) -> i32 {
             }
         }
         "C18" => {
+            ctx.rule("large-store: lease files in the current layout holding 1, 999, 1000, 1001, 1100, 2500 rows (thorough: up to 65537), 100/90/50/0 % of them expired hours to months ago, written by the harness's own connection into a schema created by the real code; opened the way the server opens it, twice; rows read by the harness before and after must be identical and the listing must show them all; non-trivial = more than one row");
             ctx.rule("reopen: twin histories (file-backed, reopened at generated points) vs uninterrupted in-memory twin; oldschema: generated v0/v1/newer databases; non-trivial = reopen with live leases of >=2 clients / a database with rows");
             props_dhcp::run_c18_func(&ctx);
             if ctx.violations.lock().unwrap().is_empty() {
@@ -131,6 +132,7 @@ pub fn run_check(id: &str, tier: Tier) -> i32 {
             }
         }
         "C20" => {
+            ctx.rule("gauges-in-real-time: leases of 1..3 s written through the pool's own allocation call on a file-backed and an in-memory store, then no write at all while real time carries them over their expiry; every 300 ms the gauges must equal the count of listed rows on either side of the clock (samples straddling a change of second are skipped); non-trivial = a lease was seen running and later run out");
             ctx.rule("gauges: after every step of a generated history get_pool_metrics must equal the harness's own count over the listing (get_leases), and on file-backed worlds (1/8 of the histories, with restarts) the listing must equal the rows read from the SQLite file by the harness's own connection; non-trivial = both classes non-empty");
             ctx.rule("upgraded-db: the same walk over a lease file written in the layout of an older release (no version row / version 0 / version 1 whose option blobs are NULL), 1..8 pre-existing rows owned by world clients or strangers, active and expired, followed by a generated history; non-trivial = rows written before the option column existed are still stored at the end");
             props_dhcp::run_c20_func(&ctx);
@@ -140,7 +142,7 @@ pub fn run_check(id: &str, tier: Tier) -> i32 {
             }
         }
         "C12" => {
-            ctx.rule("message: generated DHCP messages (all header values, hlen 0..16, option multisets with repeated/zero-length/1500-octet values) -> parse -> serialise -> parse and an RFC 2131/3396 decoder; frame: generated payloads 0..1472 x addresses x MACs through Fragment::new_udp4, decoded by an independent Ethernet/IPv4/UDP decoder with checksum verification; broadcast-flag: all 65536 flag values; non-trivial = long/repeated/zero-length option, odd payload, every flag value");
+            ctx.rule("message: generated DHCP messages (all header values, hlen 0..16, option multisets with repeated/zero-length/1500-octet values; one message in four with 25..100 options under distinct codes plus one or two values longer than one instance) -> parse -> serialise -> parse and an RFC 2131/3396 decoder; frame: generated payloads 0..1472 x addresses x MACs through Fragment::new_udp4, decoded by an independent Ethernet/IPv4/UDP decoder with checksum verification; broadcast-flag: all 65536 flag values; non-trivial = long/repeated/zero-length option, odd payload, every flag value");
             props_codec::run_c12_func(&ctx);
             if wire_ok && ctx.violations.lock().unwrap().is_empty() {
                 ctx.rule("wire-dhcp-exchange: DISCOVER, REQUEST and two renewals with ciaddr filled in (the flag value as sampled and with bit 15 inverted) against the real erbium-dhcp over a veth pair; captured frames decoded by the independent Ethernet/IPv4/UDP decoder: IPv4 destination is 255.255.255.255 iff bit 15, else yiaddr; Ethernet destination = chaddr; reply echoes xid/flags");
@@ -154,7 +156,7 @@ pub fn run_check(id: &str, tier: Tier) -> i32 {
             fuzzdrv::run_for(&ctx, "C14");
         }
         "C03" => {
-            ctx.rule("relay: generated client queries (names of 1..7 labels with arbitrary octets and mixed case, any type but ANY, EDNS sizes/DO/NSID/cookie/unknown options, CD/AD, UDP and TCP, IPv4-mapped and IPv6 sources) x generated upstream replies (any rcode incl. extended, 0..24 records over three sections, every rdata kind erbium re-encodes plus opaque types, compression off/owners/all) through the real erbium-dns with a scripted upstream; a quarter asked again after 0..2.1 s (cache); oracle: independent RFC 1035 decoder on both sides: id, QR, question, rcode, the three sections record by record, TTL equal / aged; non-trivial = upstream reply with authority or additional records, non-zero rcode or name-bearing rdata");
+            ctx.rule("relay (repeated queries also in the other letter case, over the other transport, and in another class - the upstream must then have been asked that question): generated client queries (names of 1..7 labels with arbitrary octets and mixed case, any type but ANY, EDNS sizes/DO/NSID/cookie/unknown options, CD/AD, UDP and TCP, IPv4-mapped and IPv6 sources) x generated upstream replies (any rcode incl. extended, 0..24 records over three sections, every rdata kind erbium re-encodes plus opaque types, compression off/owners/all) through the real erbium-dns with a scripted upstream; a quarter asked again after 0..2.1 s (cache); oracle: independent RFC 1035 decoder on both sides: id, QR, question, rcode, the three sections record by record, TTL equal / aged; non-trivial = upstream reply with authority or additional records, non-zero rcode or name-bearing rdata");
             if !wire_ok {
                 ctx.set_inconclusive("C03 is decided on the wire only and the wire rig is unavailable");
             } else {
@@ -163,6 +165,7 @@ pub fn run_check(id: &str, tier: Tier) -> i32 {
         }
         "C07" => {
             ctx.rule("concurrent: (1) every listener family (127.0.0.1, 0.0.0.0, ::1, ::) x UDP to several local destination addresses / TCP in one write / TCP with the length prefix split over segments; (2) enumerated drop patterns over the upstream transmissions (quick: all with <= 2 losses + all lost; thorough: all 32), run concurrently; (3) generated sets of up to 48 (thorough 256) queries in flight on a fresh server each, per-question upstream script: delay 0..1500 ms (arbitrary reordering), 0..2 duplicates, wrong id first (forces the TCP retry), TC (forces TCP), losses; oracle: exactly one response per query within the server's own back-off bound (late duplicates collected for 1.5 s), carrying its own question and own answer, SERVFAIL iff the upstream never answered, <= 5 transmissions, response source == query destination, complete TCP frames, no task panic; non-trivial = a query whose upstream exchange was disturbed or whose TCP request came in several segments; (late reply) one TCP-path query whose upstream reply comes 11.5 s late (SERVFAIL or the answer), then thirteen more TCP-path queries, each of which must get its own answer; a SERVFAIL for a query the healthy upstream was never asked is a violation of its own");
+            ctx.rule("slow-writer: a TCP client writes the first 0/1/2/3/20 octets of its framed query and pauses; three TCP clients on their own connections and a UDP client then send complete queries and must each get their own answer while the first is still pending; it completes only then (or after 10 s) and must get its own answer too");
             ctx.assume("tokio's task interleaving inside the server is exercised by real concurrency and repetition, not enumerated");
             if !wire_ok {
                 ctx.set_inconclusive("C07 is decided on the wire only and the wire rig is unavailable");
@@ -171,7 +174,7 @@ pub fn run_check(id: &str, tier: Tier) -> i32 {
             }
         }
         "C15" => {
-            ctx.rule("routes: generated route tables (1..6 routes, 0..4 suffixes each over a 7-label alphabet so nesting and siblings are common, \"\" default, forward / forge-nxdomain; one scripted upstream per forward route; suffixes optionally written in upper case) x 4..30 names (suffix + 0..3 extra labels, class IN and (a third) CH/HS/CSNET/NONE, random letter case, near misses at label boundaries, reversed labels, the root, unrelated names, RD on/off); each table is run as generated and with routes and suffixes permuted; oracle: reference longest-suffix model (whole labels, ASCII case-insensitive): forge => NXDOMAIN and no upstream asked, forward+RD => own answer from exactly that route's upstream, forward without RD => REFUSED and nobody asked, no route => SERVFAIL; outcomes equal under permutation; non-trivial = a name matching suffixes of >= 2 routes, or differing in case from the configured suffix");
+            ctx.rule("routes: generated route tables (1..6 routes, 0..4 suffixes each over a 7-label alphabet so nesting and siblings are common, \"\" default, forward / forge-nxdomain; one scripted upstream per forward route; suffixes optionally written in upper case) x 4..30 names (suffix + 0..3 extra labels, class IN and (a third) CH/HS/CSNET/NONE, random letter case, near misses at label boundaries, the first two labels written as one label with a dot inside (asked in a second round, after the name it reads like was answered and cached), reversed labels, the root, unrelated names, RD on/off); each table is run as generated and with routes and suffixes permuted; oracle: reference longest-suffix model (whole labels, ASCII case-insensitive): forge => NXDOMAIN and no upstream asked, forward+RD => own answer from exactly that route's upstream, forward without RD => REFUSED and nobody asked, no route => SERVFAIL; outcomes equal under permutation; non-trivial = a name matching suffixes of >= 2 routes, or differing in case from the configured suffix");
             if !wire_ok {
                 ctx.set_inconclusive("C15 is decided on the wire only and the wire rig is unavailable");
             } else {
@@ -183,7 +186,7 @@ pub fn run_check(id: &str, tier: Tier) -> i32 {
                 ctx.rule("wire-size: generated queries (no EDNS / advertised sizes 0,1,511,512,513,1232,4096,65535,random; UDP and TCP) x upstream replies of 12..40000 octets through the real erbium-dns; oracle: independent decoder accepts, UDP length <= max(512, advertised), dropped records <=> TC, TCP complete");
                 props_dnswire::run_c04_wire(&ctx);
             }
-            ctx.rule("truncate: generated messages x size limits placed at/around every record boundary or absolute 512..65535 through serialise_with_size; oracle: independent decoder accepts, len<=limit, fits => identical to full, else TC + proper record prefix; non-trivial = full encoding within 32 octets of the limit or above it");
+            ctx.rule("truncate: first the enumerated sweep of names first written at 0x3fe8..0x4003 (see C14) under limits 65535, 16500 and 16384; then generated messages x size limits placed at/around every record boundary or absolute 512..65535 through serialise_with_size; oracle: independent decoder accepts, len<=limit, fits => identical to full, else TC + proper record prefix; non-trivial = full encoding within 32 octets of the limit or above it");
             props_codec::run_c04_func(&ctx);
         }
         "C05" => {
@@ -192,7 +195,7 @@ pub fn run_check(id: &str, tier: Tier) -> i32 {
             props_crash::run_c05_func(&ctx);
             fuzzdrv::run_for(&ctx, "C05");
             if wire_ok && ctx.violations.lock().unwrap().is_empty() {
-                ctx.rule("wire-dns: first a matrix of well-formed queries (refused by type ANY/AXFR, refused for lack of RD, ordinary) x 14 sizes from tiny to 3000 octets (EDNS padding, a large unknown option plus NSID, extra records) over UDP and TCP; then batches of 16..64 hostile byte strings (seed packets, members of the boundary family, extra edits) delivered to the real erbium-dns as UDP datagrams, as TCP frames, and as upstream replies over UDP and over TCP; after every batch: no panic line in the server log, process alive, a well-formed query over UDP and over TCP answered with its own answer");
+                ctx.rule("wire-dns: first a matrix of well-formed queries (refused by type ANY/AXFR, refused for lack of RD, ordinary) x 14 sizes from tiny to 3000 octets (EDNS padding, a large unknown option plus NSID, extra records) over UDP and TCP; then batches of 16..64 hostile byte strings (seed packets, members of the boundary family, extra edits) delivered (after two well-formed upstream replies that arrive 3.5 s and 6.5 s late on the upstream TCP connection - thorough also 12 s and 31 s - each outwaited before judging) to the real erbium-dns as UDP datagrams, as TCP frames, and as upstream replies over UDP and over TCP; after every batch: no panic line in the server log, process alive, a well-formed query over UDP and over TCP answered with its own answer");
                 props_dnswire2::run_c05_wire(&ctx);
             }
             if wire_ok && ctx.violations.lock().unwrap().is_empty() {
@@ -206,7 +209,7 @@ pub fn run_check(id: &str, tier: Tier) -> i32 {
             props_policy::run_c02(&ctx);
         }
         "C11" => {
-            ctx.rule("options: generated policy trees (conditions: match-subnet, match-hardware-address, match-host-name/class-id/user-class with value or null; apply-<option> with value or null over 20 options with unambiguous RFC 2132 encodings; top-level dns-servers with $self4/IPv6 entries, dns-search, captive-portal; interface MTU and router) x requests (three in four preceded by another client's request on the same address seen with other interface facts, which must change nothing) (receiving address, chaddr, option values, parameter request list incl. empty and absent); oracle: independent model of the manual's semantics, options(reply) == model as a map code -> bytes (domain search compared as a decoded list); non-trivial = two siblings match, an inner policy or a policy overrides an outer/default value, null unsets, or an applied option is withheld by the parameter list");
+            ctx.rule("options: generated policy trees (conditions: match-subnet, match-hardware-address, match-host-name/class-id/user-class with value or null; apply-<option> with value or null over 20 options with unambiguous RFC 2132 encodings, plus lease-time, server-id, renewal-time, rebind-time and classless routes, whose own octets are not judged; top-level dns-servers with $self4/IPv6 entries, dns-search, captive-portal; interface MTU and router) x requests (three in four preceded by another client's request on the same address seen with other interface facts, which must change nothing) (receiving address, chaddr, option values, parameter request list incl. empty and absent); oracle: independent model of the manual's semantics, options(reply) == model as a map code -> bytes (domain search compared as a decoded list); non-trivial = two siblings match, an inner policy or a policy overrides an outer/default value, null unsets, or an applied option is withheld by the parameter list");
             ctx.assume("unconstrained (manual silent): netmask/broadcast when two different matching subnets are in play; empty list values; options 53/54/51 are protocol fields");
             props_policy::run_c11(&ctx);
         }
@@ -215,7 +218,7 @@ pub fn run_check(id: &str, tier: Tier) -> i32 {
             ctx.assume("unconstrained (documentation silent): pure IPv4 client against an IPv6 prefix shorter than /96 that covers the mapped range; whether the http-ro alias grants the root page");
             props_acl::run_c08_func(&ctx);
             if wire_ok && ctx.violations.lock().unwrap().is_empty() {
-                ctx.rule("wire-dns-acl: generated ACL lists over the addresses available on loopback (127/8 sub-prefixes, ::1, fd00:e::/64 sub-prefixes, ::ffff:127.x/96+n, with and without host bits) on a real erbium-dns with a dual-stack listener; clients from 8 source addresses over UDP and TCP ask a fresh name and a name another client may have put in the cache; oracle: first-match model: granted <=> own answer; refused => REFUSED (or silence on UDP), upstream never asked, also for cached names");
+                ctx.rule("wire-dns-acl: generated ACL lists over the addresses available on loopback (127/8 sub-prefixes, ::1, fd00:e::/64 sub-prefixes, ::ffff:127.x/96+n, with and without host bits; ::/0../80 which contain the whole IPv4-mapped range and ::/81, ::/95 which miss it) on a real erbium-dns with a dual-stack listener; clients from 8 source addresses over UDP and TCP ask a fresh name and a name another client may have put in the cache; oracle: first-match model: granted <=> own answer; refused => REFUSED (or silence on UDP), upstream never asked, also for cached names");
                 props_dnswire2::run_c08_wire(&ctx);
             }
             if wire_ok && ctx.violations.lock().unwrap().is_empty() {
@@ -233,7 +236,7 @@ pub fn run_check(id: &str, tier: Tier) -> i32 {
             }
         }
         "C19" => {
-            ctx.rule("load-and-serve: (1) the manual's examples, the shipped example file (as is and uncommented) and a full-grammar document must load; (2) complete single-substitution family over them (every node replaced by each wrong type / empty collection / boundary number / hostile string, every key replaced or deleted, every list also with its first element repeated 31..1000 times); (3) generated double substitutions; (4) generated byte/token mutations of the texts; every document goes through the real loader, every accepted configuration is used to serve DHCP (DISCOVER/REQUEST on the first host of every configured prefix, with every configured hardware address, all options requested), to build and serialise an RA per interface, and to decide ACLs for IPv4/IPv6/mapped/unix clients; oracle: Ok or Err with text, no panic; non-trivial = rejected by a typed section parser or accepted and served");
+            ctx.rule("load-and-serve: (1) the manual's examples, the shipped example file (as is and uncommented) and a full-grammar document must load; (2) complete single-substitution family over them (every node replaced by each wrong type / empty collection / boundary number / hostile string incl. long strings of 2/3/4-octet characters at four alignments, every key replaced or deleted, every list also with its first element repeated 31..1000 times); (3) generated double substitutions; (4) generated byte/token mutations of the texts; every document goes through the real loader, every accepted configuration is used to serve DHCP (DISCOVER/REQUEST on the first host of every configured prefix, with every configured hardware address, all options requested), to build and serialise an RA per interface, and to decide ACLs for IPv4/IPv6/mapped/unix clients; oracle: Ok or Err with text, no panic; non-trivial = rejected by a typed section parser or accepted and served");
             ctx.assume("yaml-rust recursion depth: documents nesting deeper than 64 and documents using anchors/aliases are not executed (counted)");
             props_conf::run_c19(&ctx);
             fuzzdrv::run_for(&ctx, "C19");
@@ -243,7 +246,7 @@ pub fn run_check(id: &str, tier: Tier) -> i32 {
             }
         }
         "C06" => {
-            ctx.rule("cache-model: generated query sequences (keys with near misses: label/type/DO/CD/case/printed-alike framing (a dot inside a label against a label boundary, an octet against its backslash-decimal spelling); lookups are unconstrained while another spelling of the name in letter case is resolved; replies with 0..12 records, TTLs {0,1,2,59,600,2^31,2^32-1,random} over three sections, cached error kinds) x clock moves (fixed steps and placements at +-2 s around the entry's smallest TTL in 250 ms steps) x sweeps, driven through the cache's own functions in handle_query order under tokio's paused clock; oracle: reference cache model; non-trivial = near-miss lookup, hit within 1 s of expiry, or hit on a reply with >=2 distinct TTLs in >=2 sections");
+            ctx.rule("cache-model: generated query sequences (keys with near misses: label/type/DO/CD/case/printed-alike framing (a dot inside a label against a label boundary, an octet against its backslash-decimal spelling); lookups are unconstrained while another spelling of the name in letter case is resolved; replies with 0..12 records (address records, SOA in the authority section with MINIMUM on either side of the TTLs, NS, opaque), TTLs {0,1,2,59,600,2^31,2^32-1,random} over three sections, cached error kinds) x clock moves (fixed steps and placements at +-2 s around the entry's smallest TTL in 250 ms steps) x sweeps, driven through the cache's own functions in handle_query order under tokio's paused clock; oracle: reference cache model; non-trivial = near-miss lookup, hit within 1 s of expiry, or hit on a reply with >=2 distinct TTLs in >=2 sections");
             props_dnsfunc::run_c06_func(&ctx);
             if wire_ok && ctx.violations.lock().unwrap().is_empty() {
                 ctx.rule("wire-cache: 40 (thorough 200) names with 1..5 records of TTL 1..4 s over the three sections through the real erbium-dns; right after the first resolution four near-miss queries (other type, DO set, CD set, class CH) must each reach the upstream; the exact query is repeated at +0.4..+5.4 s: answered from cache (upstream counter still) only within minTTL (+1 s clock slack), TTLs aged and never above the original");
@@ -254,7 +257,7 @@ pub fn run_check(id: &str, tier: Tier) -> i32 {
             ctx.rule("bucket: burst B and rate R inferred black-box, then generated arrival sequences (dt in {0,1,2,10,49,50,51,10^4} s, sizes 0..3.2B) applied check-then-deplete as the limiter does, on a harness clock; oracle: every window's granted volume <= B + R*span (+R per grant rounding), idle >= B/R => request <= B granted; non-trivial = grant after a denial or an idle gap");
             props_dnsfunc::run_c16_func(&ctx);
             if wire_ok && ctx.violations.lock().unwrap().is_empty() {
-                ctx.rule("wire-limiter: first a steady flood of 20 refused queries a second from one source for 35 s (thorough 100 s), which must get no more REFUSED than burst + rate x time allows however the seconds fall; then on a fresh erbium-dns per case: (1) 1..4 sources that never spoke send one refused (ANY) query each over UDP and must get one REFUSED; (the server has two listening sockets: a dual-stack one and a v4 one on the next port; a source past its allowance at one must get nothing more at the other) (2) a burst of 200..2000 refused queries from one source address (spread over eight source ports) gets REFUSED for at most a quarter, and not more than a 200-query burst from another source (+2), and a second burst from the same source 0.3 s later gets at most 2; (3) a server cookie obtained from an answered query exempts a 60-query burst only with the same client cookie, source and server address; presented from another source, to another server address, with a flipped bit, with an invented server part, after a restart, or with a server part computed by the public algorithm (HMAC-SHA256 over client cookie, server address, client address) under a guessable key (all-zero, all-ones, 01..08), or cut to 1, 8 or 16 octets of server part it does not; (4) a source past its allowance tries all 256 one-octet server parts, none of which may exempt it");
+                ctx.rule("wire-limiter: first a steady flood of 20 refused queries a second from one source for 35 s (thorough 100 s), which must get no more REFUSED than burst + rate x time allows however the seconds fall; then on a fresh erbium-dns per case: (1) 1..4 sources that never spoke send one refused (ANY) query each over UDP and must get one REFUSED; (before the generated cases: the upstream refuses with 0..180 records, i.e. relayed REFUSED responses of 42..3000 octets, six questions per size from a fresh source each; the octets of REFUSED sent to one source must stay within burst + rate x time) (the server has two listening sockets: a dual-stack one and a v4 one on the next port; a source past its allowance at one must get nothing more at the other) (2) a burst of 200..2000 refused queries from one source address (spread over eight source ports) gets REFUSED for at most a quarter, and not more than a 200-query burst from another source (+2), and a second burst from the same source 0.3 s later gets at most 2; (3) a server cookie obtained from an answered query exempts a 60-query burst only with the same client cookie, source and server address; presented from another source, to another server address, with a flipped bit, with an invented server part, after a restart, or with a server part computed by the public algorithm (HMAC-SHA256 over client cookie, server address, client address) under a guessable key (all-zero, all-ones, 01..08), or cut to 1, 8 or 16 octets of server part it does not; (4) a source past its allowance tries all 256 one-octet server parts, none of which may exempt it");
                 ctx.assume("key rotation (24..36 h) cannot be driven in a running server: acceptance under the previous key and rejection after two rotations are not covered");
                 props_dnswire2::run_c16_wire(&ctx);
             }
